@@ -17,6 +17,10 @@ The score VALUES contain logarithms: for n <= 4 they are coq-interval goals over
 from the exact rationals the model computes (ml_goal, ml_closed_goal, loo_goal,
 loo_refit_goal).
 
+Every case is history-aware: the methods are first called with one array holding other
+hyper-parameter values, the array is overwritten in place and the compared calls use the
+same object.
+
 Property oracles, evaluated on the implementation:
   * REFIT: for each i the real GpRegressor is fitted again without point i (same
     hyper-parameters) and asked to predict at x_i; the leave-one-out predictions and
@@ -237,7 +241,27 @@ def run_impl(case):
         with warnings.catch_warnings():
             warnings.simplefilter("ignore")
             gp = build(case)
-            theta = np.array(MX.unhex(case["hyperpars"]), dtype=float)
+            theta0 = np.array(MX.unhex(case["hyperpars"]), dtype=float)
+            # history: every method is first used with ONE array `buf` holding other values, which is
+            # then overwritten IN PLACE; the compared calls use that same object (anything cached
+            # under the caller's array, or by identity of the argument, is stale by then)
+            buf = theta0 + 0.25
+            stage = "warm-up calls with other hyper-parameters"
+            try:
+                gp.set_hyperparameters(buf)
+                gp.loo_predictions()
+            except np.linalg.LinAlgError:
+                pass                      # the perturbed values need not be well conditioned
+            for fn in (gp.marginal_likelihood, gp.loo_likelihood,
+                       gp.marginal_likelihood_gradient, gp.loo_likelihood_gradient):
+                try:
+                    fn(buf)
+                except np.linalg.LinAlgError:
+                    pass
+            buf[:] = theta0
+            theta = buf
+            stage = "set_hyperparameters"
+            gp.set_hyperparameters(theta)
             stage = "marginal_likelihood"
             ml = float(gp.marginal_likelihood(theta))
             stage = "marginal_likelihood_gradient"
@@ -248,6 +272,9 @@ def run_impl(case):
             loog, loograd = gp.loo_likelihood_gradient(theta)
             stage = "loo_predictions"
             lmu, lsig = gp.loo_predictions()
+            if not np.array_equal(theta, theta0):
+                return {"status": "mutated", "stage": "hyper-parameters",
+                        "error": "a model-selection function modified the caller's hyper-parameter array"}
             stage = "reading the matrices"
             K, gK = gp.cov.covariance_and_gradients(theta[gp.cov_slice])
             A = np.array(K, dtype=float) + np.array(gp.sig, dtype=float)
